@@ -165,16 +165,20 @@ func bootstrapOps(rng *rand.Rand, async bool) {
 			}
 		}(d)
 	}
-	wg.Add(1)
-	go func() {
-		defer wg.Done()
-		for i := 0; i < 3; i++ {
-			if ch, err := bs.Connect("mock://c:1"); err == nil {
-				ch.Write([]byte("x"))
+	// two goroutines connect with one option list that has spare capacity (built once with append, passed as opts...)
+	shared := append(make([]transport.Option, 0, 4), transport.WithAttachment("shared"))
+	for c := 0; c < 2; c++ {
+		wg.Add(1)
+		go func(c int) {
+			defer wg.Done()
+			for i := 0; i < 3; i++ {
+				if ch, err := bs.Connect(fmt.Sprintf("mock://c%d:1", c), shared...); err == nil {
+					ch.Write([]byte("x"))
+				}
+				op()
 			}
-			op()
-		}
-	}()
+		}(c)
+	}
 	closeDelay, shutDelay := time.Duration(rng.Intn(200))*time.Microsecond, time.Duration(rng.Intn(400))*time.Microsecond
 	wg.Add(1)
 	go func() {
